@@ -1,7 +1,7 @@
 """property -> verification runs (unit, active clause groups, mode, features) and what the property owns"""
 
 U1 = "u1_sched"
-STAR_OWNERS = ("C04", "C18")   # the shared shape / safety clauses (`*`) belong to these; for other properties a failing `*` clause is "undecided"
+STAR_OWNERS = ("C04",)   # the shared shape / safety clauses (`*`) belong to these; for other properties a failing `*` clause is "undecided"
 
 PROPS = {
     "C01": dict(runs=[dict(unit=U1, groups=["iso"])], own_groups=["iso"],
@@ -15,6 +15,10 @@ PROPS = {
                 undecided_sentences=["multiplicity on the parallel path rests on the assumed contract of rayon (rule R11: each closure called exactly once)"]),
     "C12": dict(runs=[dict(unit=U1, groups=["tl"])], own_groups=["tl"],
                 undecided_sentences=["'on the thread that called dispatch, never on a pool worker' (thread identity) is not a contract over sequential code", "'after every other system has finished' in time: program order of inner.dispatch then the thread-local loop is proved, rayon's fork-join is trusted"]),
+    "C07": dict(runs=[dict(unit=U1, groups=["bat"])], own_groups=["bat"],
+                undecided_sentences=["'no outside system ... ever overlaps the batch' in time (trusted execution discipline); inner thread-local systems are outside the union (known finding KF1, reported under C12)"]),
+    "C18": dict(runs=[dict(unit=U1, groups=["tot"], mode="T"), dict(unit=U1, groups=["grd"], mode="P")], own_groups=["tot", "grd", "T", "P"], owns_shared="safety",
+                undecided_sentences=["'with a message quoting the offending name': string formatting is outside Verus; only 'the call does not return' is decided"]),
     "C13": dict(runs=[dict(unit=U1, groups=["hooks"])], own_groups=["hooks"], undecided_sentences=[]),
 }
 
